@@ -163,8 +163,27 @@ def runPl (ws extra : List String) : String :=
     | _, _, _, _, _ => "bad-op"
   | _, _ => "bad-op"
 
+/-- op `bt`: `_Backtracking` alone, reading the flat path matrix through `_GetMatrix`, writing the path
+buffer (capacity `cap`, stale content) from its end -/
+def runBt (ws : List String) : String :=
+  match ws with
+  | [la, lb, cp, pm] =>
+    match la.toNat?, lb.toNat?, cp.toNat?, parsePath pm with
+    | some la, some lb, some cp, some pm =>
+      if la = 0 ∨ lb = 0 ∨ pm.length ≠ (la + 1) * (lb + 1) then "bad-op" else
+      let arr := pm.toArray
+      match backtrackBuf (pathAt arr la) la lb (Array.replicate cp 4242) with
+      | some (p, _) => s!"p={pathStr p}"
+      | none => "panic"
+    | _, _, _, _ => "bad-op"
+  | _ => "bad-op"
+
 def run (line : String) : String :=
   match line.splitOn " | " with
+  | [main] =>
+    match words main with
+    | "bt" :: ws => runBt ws
+    | _ => "bad-op"
   | [main, extra] =>
     match words main with
     | "pe" :: ws => runPe ws (words extra)
